@@ -492,7 +492,24 @@ func (e *Eng) doCallInner(fr *Frame, st *State, instr ssa.Instruction, cc *ssa.C
 	}
 	key := fn.String()
 	if fc := e.w.Contracts[key]; fc != nil {
-		setRes(e.applyContract(fr, st, instr, fc, key, args, sig, mode))
+		cargs := args
+		if len(fc.FreeVars) > 0 {
+			// closure contracts are stated over the captured variables (by name), read at the call
+			cargs = nil
+			for _, d := range fc.FreeVars {
+				for i, fv := range fn.FreeVars {
+					if fv.Name() == d.Name && i < len(bind) {
+						if p, ok := bind[i].(*PtrV); ok {
+							cargs = append(cargs, e.loadPtr(fr, st, p, p.Elem))
+						}
+					}
+				}
+			}
+			if len(cargs) != len(fc.FreeVars) {
+				panic(unsupportedErr{"cannot bind captured variables of " + key})
+			}
+		}
+		setRes(e.applyContract(fr, st, instr, fc, key, cargs, sig, mode))
 		return
 	}
 	if v, ok := e.nativeModel(fr, st, instr, fn, args); ok {
@@ -638,7 +655,9 @@ func (e *Eng) externResultFacts(fr *Frame, st *State, fn *ssa.Function, res ssa.
 	switch name {
 	case "errors.New", "fmt.Errorf", "github.com/pkg/errors.New", "github.com/pkg/errors.Errorf":
 		if iv, ok := v.(*IfaceV); ok {
-			e.assume(st, tNot(tEq(iv.Ty, bvLit(32, 0))))
+			// a non-nil error value backed by a freshly allocated object (distinct from every earlier one)
+			r := e.newRef(fr, st, "err")
+			e.assume(st, tAnd(tNot(tEq(iv.Ty, bvLit(32, 0))), tEq(iv.V, r)))
 		}
 	case "github.com/pkg/errors.WithStack", "github.com/pkg/errors.Wrapf", "github.com/pkg/errors.Wrap", "github.com/pkg/errors.WithMessage", "github.com/pkg/errors.WithMessagef":
 		if iv, ok := v.(*IfaceV); ok {
@@ -738,8 +757,9 @@ func (e *Eng) specCall(fr *Frame, st *State, fn *ssa.Function, args []Val, argTa
 			bt = append(bt, false)
 		}
 		// taints of captured cells are tracked in the cells themselves
+		// no side conditions under binders: they would mention the bound variable
 		var qside []T
-		body, _, _ := e.evalPureSide(fv.Fn, []Val{bv}, nil, fv.Bind, bt, st, fr.oldSt, fr.depth+1, &qside)
+		body, _, _ := e.evalPureSide(fv.Fn, []Val{bv}, nil, fv.Bind, bt, st, fr.oldSt, fr.depth+1, nil)
 		q := "forall"
 		if strings.HasPrefix(name, "spec_exists_") {
 			q = "exists"
@@ -964,6 +984,10 @@ type modTarget struct {
 }
 
 func (e *Eng) evalModSpec(fc *FuncContract, m *ModSpec, args []Val, st *State) []modTarget {
+	return e.evalModSpecVars(fc, m, args, nil, st)
+}
+
+func (e *Eng) evalModSpecVars(fc *FuncContract, m *ModSpec, args []Val, vars map[string]Val, st *State) []modTarget {
 	switch m.Kind {
 	case "all":
 		return []modTarget{{kind: "all"}}
@@ -980,6 +1004,11 @@ func (e *Eng) evalModSpec(fc *FuncContract, m *ModSpec, args []Val, st *State) [
 	var a []Val
 	var taint []bool
 	for _, sa := range info.Args {
+		if sa.Role == "var" {
+			a = append(a, vars[sa.Name])
+			taint = append(taint, false)
+			continue
+		}
 		if sa.Idx >= len(args) {
 			panic(unsupportedErr{"modifies: argument count mismatch for " + fc.Key})
 		}
@@ -1171,115 +1200,179 @@ func (e *Eng) freshAtEntry(r T) T {
 	return app("bvuge", e.birth(r), e.entry.heap["Alloc"])
 }
 
+// A frame is a set of locations that may be written: the function's modifies clause, or the modifies
+// clause of an enclosing loop.  Objects allocated after the frame was entered are always writable.
+type frame struct {
+	label   string
+	targets []modTarget
+	since   T // value of the allocation clock when the frame was entered
+}
+
 func (e *Eng) frameActive(fr *Frame) bool {
-	return !fr.pure && e.fc != nil && e.fc.HasMod && e.fc.Trusted == "" && e.entry != nil
+	return !fr.pure && e.fc != nil && e.fc.Trusted == "" && e.entry != nil && len(e.activeFrames(fr)) > 0
+}
+
+func (e *Eng) activeFrames(fr *Frame) []frame {
+	if fr.pure || e.fc == nil || e.entry == nil || fr.fn != e.fn {
+		return nil
+	}
+	var out []frame
+	if e.fc.HasMod {
+		out = append(out, frame{"", e.ownTargets(), e.entry.heap["Alloc"]})
+	}
+	if e.curInstr != nil && e.curInstr.Block() != nil {
+		b := e.curInstr.Block()
+		for _, li := range e.loopList {
+			if li.spec != nil && li.spec.HasMod && li.body[b] && li.modReady {
+				out = append(out, frame{fmt.Sprintf("loop%d", li.ord), li.modTargets, li.headState.heap["Alloc"]})
+			}
+		}
+	}
+	return out
+}
+
+type writeDesc struct {
+	kind string // field elems map cell global ghost ghost0 arr
+	fam  string
+	ref  T
+	ptr  *PtrV
+}
+
+// allowed: condition under which the write w is inside the frame f ("" = always allowed).
+func (e *Eng) allowed(f frame, w writeDesc) (T, bool) {
+	var ok []T
+	for _, t := range f.targets {
+		if t.kind == "all" {
+			return "", true
+		}
+	}
+	if w.ref != "" && w.kind != "global" && w.kind != "ghost0" {
+		ok = append(ok, app("bvuge", e.birth(w.ref), f.since))
+	}
+	for _, t := range f.targets {
+		switch w.kind {
+		case "field":
+			if t.kind == "field" && t.ptr.Kind == pField && t.ptr.Fam == w.fam {
+				ok = append(ok, tEq(t.ptr.Ref, w.ref))
+			}
+			if t.kind == "field" && t.ptr.Kind == pStruct {
+				ok = append(ok, tEq(t.ptr.Ref, w.ref))
+			}
+		case "elems":
+			if t.kind == "elems" && t.fam == w.fam {
+				ok = append(ok, tEq(t.ref, w.ref))
+			}
+		case "map":
+			if t.kind == "map" {
+				ok = append(ok, tEq(t.ref, w.ref))
+			}
+		case "cell":
+			if t.kind == "deref" && t.ptr.Kind == pCell {
+				ok = append(ok, tEq(t.ptr.Ref, w.ref))
+			}
+		case "global":
+			if t.kind == "global" && globalMatches(w.fam, t.fam) {
+				return "", true
+			}
+		case "ghost":
+			if t.kind == "ghost" && t.fam == w.fam {
+				ok = append(ok, tEq(t.ref, w.ref))
+			}
+		case "ghost0":
+			if t.kind == "ghost0" && t.fam == w.fam {
+				return "", true
+			}
+		}
+	}
+	return tOr(ok...), false
+}
+
+func (e *Eng) checkWrite(fr *Frame, st *State, w writeDesc, in ssa.Instruction, what string, unless T) {
+	for _, f := range e.activeFrames(fr) {
+		goal, skip := e.allowed(f, w)
+		if skip {
+			continue
+		}
+		if unless != "" {
+			goal = tOr(unless, goal)
+		}
+		kind := "frame"
+		lab := ""
+		if f.label != "" {
+			lab = f.label
+		}
+		e.oblige(st, kind, lab, e.frameProps(), goal, in, what+" stays within the "+frameName(f)+" modifies clause")
+	}
+}
+
+func frameName(f frame) string {
+	if f.label == "" {
+		return "function's"
+	}
+	return f.label + "'s"
 }
 
 func (e *Eng) checkFrameStore(fr *Frame, st *State, p *PtrV, in ssa.Instruction) {
 	if !e.frameActive(fr) || p.Kind == pLocal {
 		return
 	}
-	var ok []T
 	switch p.Kind {
 	case pStruct:
-		// whole-struct store: check every field
 		s := under(p.Elem).(*types.Struct)
 		for i := 0; i < s.NumFields(); i++ {
 			e.checkFrameStore(fr, st, e.fieldPtr(p, p.Elem, i), in)
 		}
-		return
 	case pField:
-		ok = append(ok, e.freshAtEntry(p.Ref))
-		for _, t := range e.ownTargets() {
-			if t.kind == "all" {
-				return
-			}
-			if t.kind == "field" && t.ptr.Kind == pField && t.ptr.Fam == p.Fam {
-				ok = append(ok, tEq(t.ptr.Ref, p.Ref))
-			}
-			if t.kind == "field" && t.ptr.Kind == pStruct {
-				// a struct-valued field was listed: its sub-fields are covered when the derived refs agree
-				ok = append(ok, tEq(t.ptr.Ref, p.Ref))
-			}
-		}
+		e.checkWrite(fr, st, writeDesc{kind: "field", fam: p.Fam, ref: p.Ref}, in, "store", "")
 	case pElem:
-		e.checkFrameElems(fr, st, p.Ref, strings.TrimPrefix(p.Fam, "E|"), in)
-		return
+		e.checkWrite(fr, st, writeDesc{kind: "elems", fam: p.Fam, ref: p.Ref}, in, "element store", "")
 	case pArr:
-		ok = append(ok, e.freshAtEntry(p.Ref))
-		for _, t := range e.ownTargets() {
-			if t.kind == "all" {
-				return
-			}
-		}
+		e.checkWrite(fr, st, writeDesc{kind: "arr", ref: p.Ref}, in, "array store", "")
 	case pCell:
-		ok = append(ok, e.freshAtEntry(p.Ref))
-		for _, t := range e.ownTargets() {
-			if t.kind == "all" {
-				return
-			}
-			if t.kind == "deref" && t.ptr.Kind == pCell {
-				ok = append(ok, tEq(t.ptr.Ref, p.Ref))
-			}
-		}
+		e.checkWrite(fr, st, writeDesc{kind: "cell", fam: p.Fam, ref: p.Ref}, in, "store through pointer", "")
 	case pGlobal:
-		for _, t := range e.ownTargets() {
-			if t.kind == "all" {
-				return
-			}
-			if t.kind == "global" && globalMatches(p.Fam, t.fam) {
-				return
-			}
-		}
-		ok = append(ok, "false")
+		e.checkWrite(fr, st, writeDesc{kind: "global", fam: p.Fam}, in, "store to package variable", "")
 	}
-	e.oblige(st, "frame", "", e.frameProps(), tOr(ok...), in, "store stays within the function's modifies clause")
 }
 
 func (e *Eng) checkFrameElems(fr *Frame, st *State, base T, key string, in ssa.Instruction) {
 	if !e.frameActive(fr) {
 		return
 	}
-	ok := []T{e.freshAtEntry(base)}
-	for _, t := range e.ownTargets() {
-		if t.kind == "all" {
-			return
-		}
-		if t.kind == "elems" && t.fam == "E|"+key {
-			ok = append(ok, tEq(t.ref, base))
-		}
+	e.checkWrite(fr, st, writeDesc{kind: "elems", fam: "E|" + key, ref: base}, in, "element store", "")
+}
+
+func (e *Eng) checkFrameElemsCond(fr *Frame, st *State, base T, key string, in ssa.Instruction, unless T) {
+	if !e.frameActive(fr) {
+		return
 	}
-	e.oblige(st, "frame", "", e.frameProps(), tOr(ok...), in, "element store stays within the function's modifies clause")
+	e.checkWrite(fr, st, writeDesc{kind: "elems", fam: "E|" + key, ref: base}, in, "copy destination", unless)
 }
 
 func (e *Eng) checkFrameMap(fr *Frame, st *State, m *MapV, in ssa.Instruction) {
 	if !e.frameActive(fr) {
 		return
 	}
-	ok := []T{e.freshAtEntry(m.Ref)}
-	for _, t := range e.ownTargets() {
-		if t.kind == "all" {
-			return
-		}
-		if t.kind == "map" {
-			ok = append(ok, tEq(t.ref, m.Ref))
-		}
-	}
-	e.oblige(st, "frame", "", e.frameProps(), tOr(ok...), in, "map update stays within the function's modifies clause")
+	e.checkWrite(fr, st, writeDesc{kind: "map", ref: m.Ref}, in, "map update", "")
 }
 
-// callFrameCheck: the callee's modifies target t (nil = everything) must be allowed by the caller's frame.
+// callFrameCheck: the callee's modifies target t (nil = everything) must be allowed by every active frame.
 func (e *Eng) callFrameCheck(fr *Frame, st *State, in ssa.Instruction, t *modTarget, callee string, old *State) {
 	if !e.frameActive(fr) {
 		return
 	}
-	for _, o := range e.ownTargets() {
-		if o.kind == "all" {
-			return
-		}
-	}
 	if t == nil || t.kind == "all" {
-		e.oblige(st, "frame", "["+callee+"]", e.frameProps(), "false", in, "callee may modify anything but the caller declares a frame")
+		for _, f := range e.activeFrames(fr) {
+			all := false
+			for _, o := range f.targets {
+				if o.kind == "all" {
+					all = true
+				}
+			}
+			if !all {
+				e.oblige(st, "frame", strings.TrimPrefix(f.label+"["+callee+"]", ""), e.frameProps(), "false", in, "callee may modify anything but the "+frameName(f)+" frame is restricted")
+			}
+		}
 		return
 	}
 	switch t.kind {
@@ -1290,21 +1383,11 @@ func (e *Eng) callFrameCheck(fr *Frame, st *State, in ssa.Instruction, t *modTar
 	case "map":
 		e.checkFrameMap(fr, st, &MapV{t.ref}, in)
 	case "ghost":
-		ok := []T{}
-		for _, o := range e.ownTargets() {
-			if o.kind == "ghost" && o.fam == t.fam {
-				ok = append(ok, tEq(o.ref, t.ref))
-			}
-		}
-		ok = append(ok, e.freshAtEntry(t.ref))
-		e.oblige(st, "frame", "["+callee+"]", e.frameProps(), tOr(ok...), in, "ghost update stays within the function's modifies clause")
-	case "ghost0", "global":
-		for _, o := range e.ownTargets() {
-			if o.kind == t.kind && o.fam == t.fam {
-				return
-			}
-		}
-		e.oblige(st, "frame", "["+callee+"]", e.frameProps(), "false", in, "callee modifies "+t.fam+" which is outside the caller's frame")
+		e.checkWrite(fr, st, writeDesc{kind: "ghost", fam: t.fam, ref: t.ref}, in, "ghost update by "+callee, "")
+	case "ghost0":
+		e.checkWrite(fr, st, writeDesc{kind: "ghost0", fam: t.fam}, in, "ghost update by "+callee, "")
+	case "global":
+		e.checkWrite(fr, st, writeDesc{kind: "global", fam: "Glob|x." + t.fam + "|"}, in, "package variable written by "+callee, "")
 	}
 }
 
@@ -1487,22 +1570,8 @@ func (e *Eng) doAppend(fr *Frame, st *State, instr ssa.Instruction, cc *ssa.Call
 	res := &SliceV{B: resB, O: s.O, L: newLen, C: resC}
 	e.note("append: elements between len and cap of a reallocated backing array are not modelled as zero")
 	// in-place writes touch s's backing array: frame check (only when it may happen)
-	if e.frameActive(fr) {
-		if lv, ok := litValue(tl); !(ok && lv == 0) {
-			okc := []T{tNot(fits), e.freshAtEntry(s.B), tEq(tl, i64(0))}
-			skip := false
-			for _, t := range e.ownTargets() {
-				if t.kind == "all" {
-					skip = true
-				}
-				if t.kind == "elems" && t.fam == "E|"+elemKey(et) {
-					okc = append(okc, tEq(t.ref, s.B))
-				}
-			}
-			if !skip {
-				e.oblige(st, "frame", "", e.frameProps(), tOr(okc...), instr, "in-place append stays within the function's modifies clause")
-			}
-		}
+	if lv, ok := litValue(tl); !(ok && lv == 0) {
+		e.checkFrameElemsCond(fr, st, s.B, elemKey(et), instr, tOr(tNot(fits), tEq(tl, i64(0))))
 	}
 	for _, c := range comps(et) {
 		name := "E|" + elemKey(et) + c.suffix
@@ -1582,22 +1651,6 @@ func (e *Eng) doCopy(fr *Frame, st *State, instr ssa.Instruction, cc *ssa.CallCo
 		e.modified[name] = true
 	}
 	return nn
-}
-
-func (e *Eng) checkFrameElemsCond(fr *Frame, st *State, base T, key string, in ssa.Instruction, unless T) {
-	if !e.frameActive(fr) {
-		return
-	}
-	ok := []T{unless, e.freshAtEntry(base)}
-	for _, t := range e.ownTargets() {
-		if t.kind == "all" {
-			return
-		}
-		if t.kind == "elems" && t.fam == "E|"+key {
-			ok = append(ok, tEq(t.ref, base))
-		}
-	}
-	e.oblige(st, "frame", "", e.frameProps(), tOr(ok...), in, "copy destination stays within the function's modifies clause")
 }
 
 // nativeModel: built-in models of a few library functions (trusted; listed in evidence).
